@@ -3,4 +3,4 @@ import perf
 
 
 def run(res, tier, seed, replay):
-    return perf.run_property(res, "C15", tier, seed, replay, ["C15"])
+    return perf.run_property(res, "C15", tier, seed, replay, ["C15", "C15float"])
